@@ -26,15 +26,15 @@ CHECKS = {
   technique="deterministic fault injection at a callback seam, enumerated over every callback invocation; Hypothesis as seeded case generator/shrinker"),
 }
 CHECKS["C12"] = dict(engine="iosim", category="fault_enumeration", design_ref="DESIGN.md §5",
-  text="For each seeded (class model, type, document) the load is performed from a str (reference), a Path on a simulated mount (patched io.open; real io stack on a stub raw device), StringIO, BytesIO, real files, TextIOWrapper/BufferedReader over the stub device and duck-typed read(n) streams, under chunk schedules that include a split at every offset (every multi-byte interior, CR|LF and 4096/8192 block boundary when the document is large); all canonical outcomes must be equal. For each seeded (dumper, value) every indent x ensure_ascii is dumped to a str path, Path (fresh and pre-existing), StringIO, duck sinks with/without flush, a real file and TextIOWrapper over the stub device with short raw writes; sink content must equal the dumps text exactly. Separately, one read/write/open error or EINTR per run is injected at enumerated offsets with a deliberately relaxed oracle (may raise; if it returns, value/text must be right). The sim mount is a file namespace (open, replace/rename/unlink, real-file mirroring), so temp-file-and-rename implementations work on it; documents include block-crossing long scalars, BOMs, first characters in U+F000..U+FFFF, CR/CRLF, and the name of an existing file as document text. The target file of a dump may already hold unrelated content or an earlier version of the very text (the text followed by more, a prefix of it, the text itself, same length with other content). One known finding is matched by a specific signature (known_findings.json).",
+  text="For each seeded (class model, type, document) the load is performed from a str (reference), a Path on a simulated mount (patched io.open; real io stack on a stub raw device), StringIO, BytesIO, real files, TextIOWrapper/BufferedReader over the stub device and duck-typed read(n) streams, under chunk schedules that include a split at every offset (every multi-byte interior, CR|LF and 4096/8192 block boundary when the document is large); all canonical outcomes must be equal. For each seeded (dumper, value) every indent x ensure_ascii is dumped to a str path, Path (fresh and pre-existing), StringIO, duck sinks with/without flush, a real file and TextIOWrapper over the stub device with short raw writes; sink content must equal the dumps text exactly. Separately, one read/write/open error or EINTR per run is injected at enumerated offsets with a deliberately relaxed oracle (may raise; if it returns, value/text must be right). The sim mount is a file namespace (open, replace/rename/unlink, real-file mirroring), so temp-file-and-rename implementations work on it; documents include block-crossing long scalars, BOMs, first characters in U+F000..U+FFFF, CR/CRLF, and the name of an existing file as document text. The target file of a dump may already hold unrelated content or an earlier version of the very text (the text followed by more, a prefix of it, the text itself, same length with other content). Binary streams also in UTF-16 (both byte orders) and UTF-8 with BOM. Files on the mount are named plainly, through a sub-directory, through a symlinked directory followed by '..' (the mount resolves names as the OS does), or with spaces, '~', glob characters and non-ASCII. One known finding is matched by a specific signature (known_findings.json).",
   note="Trusted: UTF-8 locale; the stub raw device and duck streams honour the RawIOBase / read(n) / write(s) contracts; message normalisation (source names, str-only snippets, byte positions, CR vs LF spelling) does not hide a real difference. Not decided: other locales, Windows newline translation, durability of partially written files.",
   technique="deterministic I/O simulation: stub raw device and duck streams under enumerated chunk schedules and single injected I/O faults; Hypothesis as seeded case generator/shrinker")
 CHECKS["C14"] = dict(engine="nodemodel", category="exploration", design_ref="DESIGN.md §7",
-  text="Seeded operation histories (up to 30, thorough 60 operations) on real yaml node trees through several yatiml.Node handles (root, attribute values, sequence items, two handles on one node, value nodes shared between keys) are executed step by step against an ordered-map / typed-scalar reference model written from the docstrings: after every operation the return value or exception class and the plain view of every live handle must equal the model's. A yaml.Node given to set_attribute must be stored by identity. Documents include the other core-schema tags (value '=', merge '<<', !!binary, !!set, !!omap, !!pairs). get_value on parsed scalars is compared with PyYAML's own scalar constructors over a YAML 1.1/1.2 spelling alphabet; remove_attributes_with_default_values is checked against a MUST-remove / MUST-keep band over (default, value) pairs incl. inf/nan and numeric strings, must never raise, and is also run after a sibling class sharing the __init__ was sweetened. Classes given to it may define their own __new__(cls, *args, **kwargs) or have a metaclass with __call__ (their parameters still are those of __init__). A failure that needs an earlier case of the same process is replayed with that case. No fault or schedule dimension exists for yatiml.Node and none is pretended.",
+  text="Seeded operation histories (up to 30, thorough 60 operations) on real yaml node trees through several yatiml.Node handles (root, attribute values, sequence items, two handles on one node, value nodes shared between keys) are executed step by step against an ordered-map / typed-scalar reference model written from the docstrings: after every operation the return value or exception class and the plain view of every live handle must equal the model's. A yaml.Node given to set_attribute must be stored by identity. Documents include the other core-schema tags (value '=', merge '<<', !!binary, !!set, !!omap, !!pairs). get_value on parsed scalars is compared with PyYAML's own scalar constructors over a YAML 1.1/1.2 spelling alphabet; remove_attributes_with_default_values is checked against a MUST-remove / MUST-keep band over (default, value) pairs incl. inf/nan and numeric strings, must never raise, and is also run after a sibling class sharing the __init__ was sweetened. Classes given to it may define their own __new__(cls, *args, **kwargs) or have a metaclass with __call__ (their parameters still are those of __init__). Keys include Unicode twins (NFC/NFD, MICRO SIGN/mu, ligature, fullwidth) that are distinct strings. A failure that needs an earlier case of the same process is replayed with that case. No fault or schedule dimension exists for yatiml.Node and none is pretended.",
   note="Trusted: the reference model (two-sided where the documentation is). Operations are applied only where the docstrings allow them, on mappings with distinct scalar keys. A seeded sample of histories, not an exhaustive enumeration.",
   technique="model-based checking of seeded operation histories against an executable reference model (sequential refinement); Hypothesis as seeded plan generator/shrinker")
 CHECKS["C11"] = dict(engine="world", category="exploration", design_ref="DESIGN.md §4",
-  text="Seeded worlds: 1-3 class-model specs (same-named classes across specs), shared load/dump/JSON functions, K in 1..4 client threads with operation lists (loads from several source kinds, dumps to several sinks, function creation, plain-PyYAML probes, gc), and faults attached to operations (callback exception, cancellation at the n-th yield point, read/write error). Each world runs in a child forked from a pristine worker under a baton scheduler: real threads, pre-empted only at sys.settrace line/opcode events in yatiml, PyYAML and generated classes and at seam calls, the schedule tape deciding every switch (PCT-like change points, geometric run lengths, fixed quanta, and schedules derived from a profiling run that park a thread right after it wrote call-outliving state). Workload extras: functions over subsets of one class set and sibling functions, twin creation of the very same function by two threads, sequential histories repeated in a tight loop (40-60 times, thorough up to 16 000 calls), failed calls' exceptions kept alive by the caller, stride single-pre-emption sweeps. Churn scenarios: functions created, used, dropped and collected over same-named class sets, and the class source itself executed anew each round (new class objects and typing aliases, the old ones die; 160-240 rounds, thorough up to 1500). Class models include untyped parameters, container defaults through _yatiml_defaults with a sweeten that removes defaulted attributes, Any-typed data with non-string and tuple keys. Oracles: every finished operation equals the same operation in a fresh pristine child in which only its own function exists (value with sharing structure, callback trace, exception class and message tokens, sink content); PyYAML's and yatiml's base registries equal their import-time fingerprint at quiescence and at every context switch; user classes (attributes, and the annotations/defaults/code of their methods) and dumped objects are unchanged; every class of the yaml package keeps its attributes and methods; process-wide settings that change what later calls return (recursion limit, int-digits limit, warning filters, cwd, umask, locale, open) are restored; no deadlock.",
+  text="Seeded worlds: 1-3 class-model specs (same-named classes across specs), shared load/dump/JSON functions, K in 1..4 client threads with operation lists (loads from several source kinds, dumps to several sinks, function creation, plain-PyYAML probes, gc), and faults attached to operations (callback exception, cancellation at the n-th yield point, read/write error). Each world runs in a child forked from a pristine worker under a baton scheduler: real threads, pre-empted only at sys.settrace line/opcode events in yatiml, PyYAML and generated classes and at seam calls, the schedule tape deciding every switch (PCT-like change points, geometric run lengths, fixed quanta, and schedules derived from a profiling run that park a thread right after it wrote call-outliving state). Workload extras: functions over subsets of one class set and sibling functions, twin creation of the very same function by two threads, sequential histories repeated in a tight loop (40-60 times, thorough up to 16 000 calls), failed calls' exceptions kept alive by the caller, stride single-pre-emption sweeps. Churn scenarios: functions created, used, dropped and collected over same-named class sets, and the class source itself executed anew each round (new class objects and typing aliases, the old ones die; 160-240 rounds, thorough up to 1500). Class models include untyped parameters, container defaults through _yatiml_defaults with a sweeten that removes defaulted attributes, Any-typed data with non-string and tuple keys. Re-entrant use: at a callback invocation of one operation in eight the user's code performs another load/dump operation itself (recorded and compared as an operation of its own; the outer operation's reference never contains it). Pairs of load functions over identical supporting classes with different result types. Oracles: every finished operation equals the same operation in a fresh pristine child in which only its own function exists (value with sharing structure, callback trace, exception class and message tokens, sink content); PyYAML's and yatiml's base registries equal their import-time fingerprint at quiescence and at every context switch; user classes (attributes, and the annotations/defaults/code of their methods) and dumped objects are unchanged; every class of the yaml package keeps its attributes and methods; process-wide settings that change what later calls return (recursion limit, int-digits limit, warning filters, cwd, umask, locale, open) are restored, and the recursion and int-digits limits are also compared at every context switch; a broad behaviour probe of plain PyYAML (documents, values, dump options, errors, the other loaders) equals its import-time result; no deadlock.",
   note="Trusted: pre-emption at source-line (knob: bytecode) granularity, C code atomic as under the GIL; canonical outcome comparison (value and callback trace, or exception class and message-token multiset); the pristine fork is a fresh process. A seeded sample of worlds and schedules, not an enumeration.",
   technique="deterministic simulation: seeded baton scheduler over real threads (sys.settrace yield points) with fault injection, history compared with an isolated fresh-process reference; Hypothesis as seeded plan generator/shrinker")
 CHECKS["C06"] = dict(engine="dumphist", category="exploration", design_ref="DESIGN.md §4a",
